@@ -505,3 +505,126 @@ def rule_int64_product(db, chk, cfg, rule="INT64.product", lib_only=True):
                                   "the library forms such products in double or __int128" % (canon(x)[:60], t), where(x), cfg=cfg)
     chk.instance(rule, {"multiplications_inspected": n, "cfg": cfg}, n=max(n, 1))
     return n
+
+
+# ---------------------------------------------------------------------------
+# HOT.guard: functions that dereference e.outrec are only called on edges known to carry output
+# ---------------------------------------------------------------------------
+
+NEEDS_HOT = {"AddOutPt": (0,), "AddLocalMaxPoly": (0,), "GetLastOp": (0,), "IsFront": (0,), "OutrecIsAscending": (0,), "JoinOutrecPaths": (0, 1)}
+MAKES_HOT = {"AddLocalMinPoly": (0, 1), "StartOpenPath": (0,)}
+HOT_ALLOW = {
+    ("ClipperBase::AddLocalMaxPoly", "IsFront", "e2"): "second edge of a local maximum: the maxima pair of a hot edge is hot (sweep invariant the "
+                                                        "code itself relies on, see the commented-out check in DoHorizontal)",
+    ("ClipperBase::AddLocalMaxPoly", "IsFront", "e1"): "precondition of AddLocalMaxPoly: callers pass a hot first edge (checked at every call site by this rule)",
+    ("ClipperBase::AddLocalMaxPoly", "AddOutPt", "e1"): "precondition of AddLocalMaxPoly (hot first edge), checked at its call sites",
+    ("ClipperBase::AddLocalMaxPoly", "JoinOutrecPaths", "e1"): "precondition of AddLocalMaxPoly (hot first edge)",
+    ("ClipperBase::AddLocalMaxPoly", "JoinOutrecPaths", "e2"): "maxima pair of a hot edge is hot (sweep invariant)",
+    ("ClipperBase::JoinOutrecPaths", "IsFront", "e1"): "precondition of JoinOutrecPaths: both edges hot, checked at its call sites",
+    ("ClipperBase::AddOutPt", "IsFront", "e"): "precondition of AddOutPt (hot edge), checked at its call sites",
+    ("ClipperBase::AddLocalMinPoly", "OutrecIsAscending", "prevHotEdge"): "GetPrevHotEdge only returns null or an edge with IsHotEdge (its loop skips every "
+                                                                           "other edge); the call is inside `if (prevHotEdge)`",
+    ("ClipperBase::DoHorizontal", "AddLocalMaxPoly", "e"): "right-to-left case: *e is the maxima pair of the hot horizontal edge; the pair of a hot edge is "
+                                                            "hot (sweep invariant, see the commented-out check a few lines above)",
+}
+
+
+class _Hot(Client):
+    """state: frozenset of canonical edge expressions known to have a non-null outrec."""
+
+    def __init__(self, db, f):
+        self.db, self.f = db, f
+        self.bad = []
+        self.sites = 0
+
+    def join(self, a, b):
+        return a & b
+
+    @staticmethod
+    def _key(e):
+        s = canon(e)
+        s = re.sub(r'^\(\*(.*)\)$', r'\1', s)
+        return s
+
+    def _apply(self, node, st):
+        for x in walk(node):
+            k = x.get("kind")
+            if k in ("CallExpr", "CXXMemberCallExpr"):
+                nm = self.db.callee(x)[0]
+                args = self.db.call_args(x)
+                if nm in NEEDS_HOT:
+                    for i in NEEDS_HOT[nm]:
+                        if i < len(args):
+                            key = self._key(args[i])
+                            self.sites += 1
+                            if key not in st:
+                                self.bad.append((x, nm, key))
+                if nm in MAKES_HOT:
+                    for i in MAKES_HOT[nm]:
+                        if i < len(args):
+                            st = st | {self._key(args[i])}
+                if nm in ("SwapOutrecs",) and len(args) == 2:
+                    a, b = self._key(args[0]), self._key(args[1])
+                    if not (a in st and b in st):
+                        st = st - {a, b}
+                if nm in ("AddLocalMaxPoly", "JoinOutrecPaths", "UncoupleOutRec", "Split", "CheckJoinLeft", "CheckJoinRight", "UpdateEdgeIntoAEL",
+                          "IntersectEdges", "DoMaxima", "DoHorizontal", "DeleteFromAEL"):
+                    # these may uncouple the edges they are given (and their neighbours): forget everything
+                    if nm in ("AddLocalMaxPoly", "JoinOutrecPaths", "IntersectEdges", "Split", "CheckJoinLeft", "CheckJoinRight", "DoMaxima"):
+                        st = frozenset()
+            if k == "BinaryOperator" and x.get("opcode") == "=":
+                l = canon(kids(x)[0])
+                m = re.match(r'^(.*)(\.|->)outrec$', l)
+                if m:
+                    key = re.sub(r'^\(\*(.*)\)$', r'\1', m.group(1))
+                    if canon(kids(x)[1]) == "nullptr":
+                        st = st - {key}
+                    else:
+                        st = st | {key}
+        return st
+
+    def stmt(self, node, st):
+        return self._apply(node, st)
+
+    def cond_atom(self, e, st):
+        e0 = _u(e)
+        if e0.get("kind") == "CallExpr" and self.db.callee(e0)[0] == "IsHotEdge":
+            key = self._key(self.db.call_args(e0)[0])
+            return st | {key}, st - {key}
+        s = canon(e0)
+        m = re.match(r'^(.*)(\.|->)outrec$', s)
+        if m:
+            key = re.sub(r'^\(\*(.*)\)$', r'\1', m.group(1))
+            return st | {key}, st - {key}
+        st2 = self._apply(e, st)
+        return st2, st2
+
+
+def rule_hot_guard(db, chk, cfg, rule="HOT.guard"):
+    n = 0
+    for f in db.funcs:
+        if f.is_pattern or f.cls not in ("ClipperBase",) and f.qual not in ("GetLastOp",):
+            continue
+        if not any(x.get("kind") in ("CallExpr", "CXXMemberCallExpr") and db.callee(x)[0] in NEEDS_HOT for x in walk(f.body)):
+            continue
+        cl = _Hot(db, f)
+        Walker(cl).function(f.body, frozenset())
+        n += cl.sites
+        seen = set()
+        nbad = 0
+        for x, nm, key in cl.bad:
+            k3 = (f.qual, nm, key)
+            if k3 in seen:
+                continue
+            seen.add(k3)
+            allow = HOT_ALLOW.get(k3)
+            if allow:
+                chk.allow(rule, "%s: %s(%s)" % k3, allow)
+                continue
+            nbad += 1
+            chk.violation(rule, f.qual, "%s(%s)" % (nm, key),
+                          "%s(%s) dereferences %s.outrec, but on this path nothing establishes that the edge carries output "
+                          "(no dominating IsHotEdge test / AddLocalMinPoly / StartOpenPath): null-pointer dereference if it does not"
+                          % (nm, key, key), where(x), cfg=cfg)
+        chk.instance(rule, {"function": f.qual, "call_sites": cl.sites, "unproved": nbad, "cfg": cfg}, n=max(cl.sites, 1), ok=nbad == 0)
+    return n
